@@ -73,7 +73,7 @@ class Case:
         np, rng = self.np, self.rng
         n = int(np.prod(shape))
         if dt == "text":
-            pool = ["", "a", "üñí", "x y", "long" * 30, "∂", " lead", "trail ", "tab\tin"]
+            pool = ["", "a", "üñí", "x y", "long" * 30, "∂", " lead", "trail ", "tab\tin", "Cafe\u0301", "\u2126", "\u1112\u1161\u11ab", "\U0001f9ea"]
             out = np.empty(n, dtype=object)
             for i in range(n):
                 out[i] = rng.choice(pool)
